@@ -3,7 +3,7 @@
    res = Ok | Err (an exception); pv = str | bool | int | list of str. *)
 From MV Require Import Base.Strs Options.Kinds Options.Store Options.Init Options.Spec
                        Options.Proofs Options.Precedence Options.SubMerge Options.SubApply Options.Final
-                       Options.Buildtype Options.TopProject.
+                       Options.Buildtype Options.TopProject Options.YieldInv.
 
 (* ---- "A value violating an option's type, choices or range is always rejected
         and a stored value always satisfies them." *)
@@ -231,6 +231,56 @@ Theorem C07_yield_established_by_add_project_option : forall s k o s',
     oyield o' = match yield_parent s k o with Some _ => true | None => false end.
 Proof. exact yield_setup. Qed.
 Print Assumptions C07_yield_established_by_add_project_option.
+
+(* a parent link always points to an existing option of the SAME class (options.py:918
+   `type(parent_option) is type(valobj)`; a feature option is not a parent for a combo
+   option although UserFeatureOption subclasses UserComboOption) — after every sequence
+   of store operations *)
+Theorem C07_yield_parent_has_same_type : forall cross libdir s0 ops s' out e,
+  init_builtins cross libdir = Ok s0 ->
+  run_ops s0 ops [] = (s', out, e) ->
+  forall k o pk, dget (options s') k = Some o -> oparent o = Some pk ->
+    exists p, dget (options s') pk = Some p /\ same_class (okind p) (okind o) = true.
+Proof.
+  intros cross libdir s0 ops s' out e H0 H.
+  exact (run_ops_ywf ops s0 [] s' out e (init_builtins_ywf cross libdir s0 H0) H).
+Qed.
+Print Assumptions C07_yield_parent_has_same_type.
+
+(* the effective value of a key without augment: the option's own stored value, or for a
+   yielding option the stored value of its same-class parent; it satisfies the option
+   object it is stored in *)
+Theorem C07_effective_value_characterised : forall s q v,
+  store_ok s -> yield_wf s ->
+  get_value_for s q = Ok v -> dget (augments s) (ensure_key s q) = None ->
+  exists rk o, resolve_option s (ensure_key s q) = Ok (rk, o) /\
+    ((oyield o = false /\ v = ovalue o /\ satisfies (okind o) v = true) \/
+     (oyield o = true /\ exists pk p, oparent o = Some pk /\ dget (options s) pk = Some p /\
+        v = ovalue p /\ satisfies (okind p) v = true /\ same_class (okind p) (okind o) = true)).
+Proof. exact effective_value_characterised. Qed.
+Print Assumptions C07_effective_value_characterised.
+
+(* "always valid" does NOT extend to the value a yielding option shows: same class, wider
+   range in the parent (known finding C07:yielding-value-outside-own-choices, reproduced on
+   the implementation by the check) *)
+Theorem C07_effective_value_valid_refuted :
+  exists s0 s' out e o v,
+    init_builtins false (s2l "lib") = Ok s0 /\
+    run_ops s0 witness_ops [] = (s', out, e) /\ e = None /\
+    dget (options s') yopt_sub = Some o /\
+    get_value_for s' yopt_sub = Ok v /\
+    satisfies (okind o) (ovalue o) = true /\
+    satisfies (okind o) v = false.
+Proof. exact effective_value_valid_refuted. Qed.
+Print Assumptions C07_effective_value_valid_refuted.
+
+Theorem C07_effective_value_valid_partial : forall s q v rk o,
+  store_ok s -> yield_wf s ->
+  get_value_for s q = Ok v -> dget (augments s) (ensure_key s q) = None ->
+  resolve_option s (ensure_key s q) = Ok (rk, o) -> oyield o = false ->
+  satisfies (okind o) v = true.
+Proof. exact effective_value_valid_partial. Qed.
+Print Assumptions C07_effective_value_valid_partial.
 
 (* ---- "prefix-dependent directory defaults follow the prefix" *)
 Theorem C07_prefix_source_order : forall s pdo cmd mf s1 pdo' cmd' mf',
